@@ -8,7 +8,7 @@ CONSTANTS
   DesigChoices <- D4
   Wallet <- W12
   AllowRestart = TRUE
-  AllowRelayOff = TRUE
+  AllowRelayOff = FALSE
   RemovalRace = TRUE
   DesigRace = FALSE
   KeepFirstCopy = FALSE
